@@ -105,3 +105,13 @@ Require Copia.Proofs.TieSigTable.
 Theorem C01_signature_table_is_translation_of_source : TieSigTable.sig_table_is_translation.
 Proof. exact TieSigTable.sig_table_is_translation_holds. Qed.
 Print Assumptions C01_signature_table_is_translation_of_source.
+
+(** The three methods BOTH engines build a delta with - delta.rs `Delta::push_copy`, `push_literal`, `push_literal_byte` -
+    are, as the source has them now, the `push_copy` / `push_lit` / `push_lit_byte` of Model/Delta.v the scan of the
+    theorems above calls (each body is checked literally against the reviewed text and read as a function on the
+    operation list, newest first: Gen/DeltaVGen.v, Proofs/TieDeltaV.v): a copy contiguous with the last copy extends it
+    unless the u32 length would overflow, otherwise a new operation with exactly the given offset and length is pushed. *)
+Require Copia.Proofs.TieDeltaV.
+Theorem C01_delta_builders_are_translation_of_source : TieDeltaV.delta_validate_model_is_translation.
+Proof. exact TieDeltaV.delta_validate_model_is_translation_holds. Qed.
+Print Assumptions C01_delta_builders_are_translation_of_source.
